@@ -348,6 +348,8 @@ brk("c11-cust-values-rev", ["C11"], "src/expr.rs",
                 .collect(),""",
     """            v.into_iter()
                 .map(|v| Into::<Value>::into(v).into())
+                .collect::<Vec<SimpleExpr>>()
+                .into_iter()
                 .rev()
                 .collect(),""", "C11.R3:cust_with_values")
 
